@@ -66,6 +66,29 @@ func doReqH(h fasthttp.RequestHandler, method, path string, kv ...string) *fasth
 	return rc
 }
 
+// doReqReuse serves a request on a RequestCtx that is reused, as a keep-alive connection worker reuses it
+// (request / response buffers are recycled, not reallocated).
+func doReqReuse(rc *fasthttp.RequestCtx, h fasthttp.RequestHandler, method, path string, kv ...string) {
+	rc.Request.Reset()
+	rc.Response.Reset()
+	rc.ResetUserValues() // as the server does between two requests of a connection
+	rc.Request.Header.SetMethod(method)
+	rc.Request.SetRequestURI(path)
+	for i := 0; i+1 < len(kv); i += 2 {
+		rc.Request.Header.Set(kv[i], kv[i+1])
+	}
+	func() {
+		defer func() {
+			if r := recover(); r != nil {
+				rc.Response.Reset()
+				rc.Response.SetStatusCode(599)
+				rc.Response.SetBodyString(fmt.Sprint("PANIC: ", r))
+			}
+		}()
+		h(rc)
+	}()
+}
+
 func TestC01Measure(t *testing.T) {
 	var in c01MeasureIn
 	b, err := os.ReadFile(os.Getenv("VERIF_IN"))
